@@ -112,7 +112,29 @@ pub fn gen_value(r: &mut Rng, dt: &DType) -> Val {
 /// Valid points for a prototype: a pure function of (prototype, n, seed).
 pub fn gen_points(proto: &[Rec], n: usize, seed: u64) -> Vec<Point> {
     let mut r = Rng::new(seed ^ 0xA5A5_5A5A_1234_8765);
-    (0..n).map(|_| proto.iter().map(|rec| gen_value(&mut r, &rec.dt)).collect()).collect()
+    (0..n)
+        .map(|_| {
+            if r.chance(1, 64) {
+                // a point whose values are special all at once: every float the same special
+                // value, every integer at its minimum (or every one at its maximum)
+                let f = r.below(6);
+                let at_min = r.chance(2, 3);
+                let f64v = [f64::NAN, f64::INFINITY, f64::NEG_INFINITY, -0.0, 0.0, f64::MAX][f as usize];
+                let f32v = [f32::NAN, f32::INFINITY, f32::NEG_INFINITY, -0.0, 0.0, f32::MAX][f as usize];
+                proto
+                    .iter()
+                    .map(|rec| match &rec.dt {
+                        DType::Single { .. } => Val::S(f32v.to_bits()),
+                        DType::Double { .. } => Val::D(f64v.to_bits()),
+                        DType::Int { min, max } => Val::I(if at_min { *min } else { *max }),
+                        DType::Scaled { min, max, .. } => Val::SI(if at_min { *min } else { *max }),
+                    })
+                    .collect()
+            } else {
+                proto.iter().map(|rec| gen_value(&mut r, &rec.dt)).collect()
+            }
+        })
+        .collect()
 }
 
 // ------------------------------------------------------------------ types
@@ -435,7 +457,21 @@ pub fn gen_dt(r: &mut Rng) -> DT {
 }
 
 pub fn gen_xform(r: &mut Rng) -> Xform {
-    let rot = match r.below(5) {
+    let rot = match r.below(6) {
+        5 => {
+            // a very small rotation about a coordinate axis or the diagonal
+            let theta: f64 = *r.pick(&[1e-9, 1e-7, 1e-6, 2e-6, 1e-5, 1e-3]);
+            let (s, c) = ((theta / 2.0).sin(), (theta / 2.0).cos());
+            match r.below(4) {
+                0 => [c, s, 0.0, 0.0],
+                1 => [c, 0.0, s, 0.0],
+                2 => [c, 0.0, 0.0, s],
+                _ => {
+                    let k = s / 3f64.sqrt();
+                    [c, k, k, k]
+                }
+            }
+        }
         0 => [1.0, 0.0, 0.0, 0.0],
         1 => [0.0, 1.0, 0.0, 0.0],
         2 => [std::f64::consts::FRAC_1_SQRT_2, 0.0, 0.0, std::f64::consts::FRAC_1_SQRT_2],
